@@ -504,6 +504,10 @@ func GenCase(tape *sim.Tape, crashBias bool) *Case {
 	if iv.Type != "" && tape.Draw(4) == 0 {
 		iv.UseMime = true
 	}
+	// size of the worker pool: 4 (1 CPU), 6, 9 or whatever the machine gives
+	if tape.Draw(2) == 0 {
+		iv.CPUs = []int{1, 6, 9}[tape.Draw(3)]
+	}
 	return &Case{Tree: t, Inv: iv, Shape: shape}
 }
 
